@@ -256,15 +256,15 @@ func (serviceCore *ServiceCore) Init() error {
 		serviceCore.NodeInfo.KeyPairs = append(serviceCore.NodeInfo.KeyPairs, keyPair)
 	}
 
-	// load clients
+	// load clients. no file yet means no clients, and must not prevent loading the acls
 	err = serviceCore.loadClients()
-	if err != nil {
+	if err != nil && !os.IsNotExist(err) {
 		return err
 	}
 
 	// load acls
 	err = serviceCore.loadAcls()
-	if err != nil {
+	if err != nil && !os.IsNotExist(err) {
 		return err
 	}
 
@@ -362,7 +362,7 @@ func (serviceCore *ServiceCore) DeleteClientAccessControls(clientID string) {
 
 	serviceCore.accessControls.Delete(clientID)
 
-	jsonData, _ := json.Marshal(serviceCore.GetClients())
+	jsonData, _ := json.Marshal(serviceCore.GetAllAccessControls())
 	_ = ioutil.WriteFile(serviceCore.Location+string(os.PathSeparator)+"acls.json", jsonData, 0o644)
 }
 
